@@ -5,7 +5,8 @@
    time.MarshalText: the theorems hold for every such formatter. *)
 From Coq Require Import List ZArith NArith Bool.
 From Storage Require Import Base.Bytes Ast.F64 Ast.Values Ast.Schema Ast.Stacked Ast.Untyped Ast.Typed Ast.Typer
-  Ast.Eval Ast.Spec Ast.Seek Ast.StackedProofs Ast.ScanProofs Ast.TyperProofs.
+  Ast.Eval Ast.Spec Ast.Seek Ast.StackedProofs Ast.ScanProofs Ast.TyperProofs Ast.ChildStore Ast.ChildStoreProofs.
+From Coq Require Import Permutation.
 Import ListNotations.
 
 (* Whatever typed tree the typing pass (symbol validation, operator/type dispatch, hoisting of set functions,
@@ -69,3 +70,73 @@ Theorem cursor_scanner_exact :
       Ok (firstn (Z.to_nat (tlim - 0)) (skipn (Z.to_nat (toff - 0)) (filter f (ids_of c)))).
 Proof. exact cursor_scanner_exact_lemma. Qed.
 Print Assumptions cursor_scanner_exact.
+
+(* ---- child stores and scan strategies (Ast/ChildStore.v) ---- *)
+
+(* A query through a child store (a view of the parent's entity buckets: plain = the parent entities that carry
+   the child's sub-bucket, Extended() = every parent entity) returns exactly the MEMBERS that satisfy the filter,
+   through QueryIds and through IterateIds. *)
+Theorem child_store_query_exact :
+  forall (fmt_float : f64 -> str) (fmt_time : Z -> Z -> str) (sch : schema) (h : list childdecl) (S : nat)
+         (c : childdecl) (p : untyped) (skip limit : option Z) (t : typed),
+    find_child h S = Some c ->
+    typer sch S (UQuery p skip limit) = Ok t ->
+    forall d : db, wf_db sch (child_db h d) ->
+      let members := map fst (child_entities c (d (ch_parent c))) in
+      let answer := page skip limit (filter (fun x => spec fmt_float fmt_time sch (child_db h d) S x p) members) in
+      query_ids fmt_float fmt_time sch (child_db h d) S t = Ok answer /\
+      iterate_ids fmt_float fmt_time sch (child_db h d) S t = Ok answer.
+Proof. exact child_store_query_exact_lemma. Qed.
+Print Assumptions child_store_query_exact.
+
+Theorem child_store_members_plain :
+  forall (c : childdecl) (ents : list (str * entity)) (id : str) (e : entity),
+    ch_ext c = false ->
+    (In (id, e) (child_entities c ents) <-> In (id, e) ents /\ has_child_data (ch_path c) e = true).
+Proof. exact child_members_plain. Qed.
+Print Assumptions child_store_members_plain.
+
+Theorem child_store_members_extended :
+  forall (c : childdecl) (ents : list (str * entity)), ch_ext c = true -> child_entities c ents = ents.
+Proof. exact child_members_extended. Qed.
+Print Assumptions child_store_members_extended.
+
+(* The oracle applied to the answer of every scan strategy (id order forward / reverse, sorted by other fields,
+   with and without paging, over the entities bucket or a caller-provided cursor):
+   (1) it raises no alarm for a scanner that pages ANY ordering of exactly the matching entities; *)
+Theorem strategy_oracle_no_false_alarm :
+  forall (M order : list str) (skip limit : option Z),
+    NoDup M -> Permutation order M ->
+    strategy_ok OAny M skip limit (page skip limit order) (Some (Z.of_nat (length M))) = true /\
+    strategy_ok OFwd M skip limit (page skip limit M) (Some (Z.of_nat (length M))) = true /\
+    strategy_ok ORev M skip limit (page skip limit (rev M)) (Some (Z.of_nat (length M))) = true.
+Proof.
+  intros M order skip limit Hnd Hp. split; [exact (strategy_any_sound M order skip limit Hnd Hp)|].
+  split; [exact (strategy_fwd_sound M skip limit) | exact (strategy_rev_sound M skip limit)].
+Qed.
+Print Assumptions strategy_oracle_no_false_alarm.
+
+(* (2) an accepted answer holds only matching entities, none twice, as many as skip / limit leave, and the
+   reported total is the number of matching entities whatever the paging; *)
+Theorem strategy_oracle_no_omission_no_extra :
+  forall (M : list str) (skip limit : option Z) (ids : list str) (count : option Z),
+    NoDup M -> strategy_ok OAny M skip limit ids count = true ->
+    NoDup ids /\ incl ids M /\ length ids = length (page skip limit M) /\
+    (forall c, count = Some c -> c = Z.of_nat (length M)).
+Proof. exact strategy_any_complete. Qed.
+Print Assumptions strategy_oracle_no_omission_no_extra.
+
+(* (3) without paging the selected SET is the matching set, whichever strategy served the query; the id-ordered
+   strategies are pinned to the page of the id order. *)
+Theorem strategy_selects_matching_set :
+  forall (M ids : list str) (count : option Z),
+    NoDup M -> strategy_ok OAny M None None ids count = true -> Permutation ids M.
+Proof. exact strategy_unpaged_set. Qed.
+Print Assumptions strategy_selects_matching_set.
+
+Theorem strategy_id_order_exact :
+  forall (k : order_kind) (M : list str) (skip limit : option Z) (ids : list str) (count : option Z),
+    k <> OAny -> strategy_ok k M skip limit ids count = true ->
+    ids = page skip limit (match k with ORev => rev M | _ => M end) /\ (forall c, count = Some c -> c = Z.of_nat (length M)).
+Proof. exact strategy_exact_complete. Qed.
+Print Assumptions strategy_id_order_exact.
